@@ -43,6 +43,11 @@ def arrow(n, tip_last=True):
     return pat_bits(n, n, set(e))
 
 
+def lshape(n):
+    """dense first column + dense last row + diagonal: pivoting on (0,0) gives no fill at all, pivoting on (n-1,0) fills the factors completely"""
+    return pat_bits(n, n, set([(i, i) for i in range(n)] + [(i, 0) for i in range(n)] + [(n - 1, j) for j in range(n)]))
+
+
 def full_diag_plus(n, max_off):
     """every pattern with full diagonal and <= max_off off-diagonal entries"""
     off = [(i, j) for i in range(n) for j in range(n) if i != j]
@@ -81,6 +86,8 @@ def symm_family(n, count, seed=12345, density=3):
         out.append(pat_bits(n, n, set(e)))
     return list(dict.fromkeys(out))
 
+TUNINGS["t112_f1"] = (1, 1, 2, 1, 1, 1)       # no relaxed supernodes, fill estimate 1: storage follows the actual fill
+TUNINGS["t214_f1"] = (2, 1, 4, 20, 20, 1)
 TUNINGS["t_sym"] = (4, 6, 8, 20, 20, 20)     # relaxed supernodes up to 6 columns: heap_relax_snode / relax_snode subtree logic
 TUNINGS["t_dflt"] = (8, 10, 12, 20, 20, 20)  # close to the library defaults (relax 10)
 
